@@ -163,7 +163,8 @@ Definition c01_step (ds : list (N * sdesc)) (m : mon) (o : op) (i : sobs) : bool
   (* a refused attempt ends at once, is announced (outside shutdown), gets no I/O *)
   match admitted_id o with
   | Some id =>
-      if memb id (o_att i) then negb (m_teardown m) && negb (m_shut m)   (* nothing is accepted during tear-down of the previous shell, or once shutdown has begun *)
+      if memb id (o_att i) then negb (m_teardown m) && negb (m_shut m) &&   (* nothing is accepted during tear-down of the previous shell, or once shutdown has begun *)
+                                match desc_of ds id with Some x => negb (key_eqb (sd_key x) (KUni [])) | None => true end   (* ... nor ever without an ID *)
       else memb id (o_ret i) &&
            (m_shut m || existsb (fun x => match x with ONote NRefused s => s =? id | _ => false end) (o_och i)) &&
            negb (existsb (fun w => match w with WWrite s _ | WWriteFail s _ => s =? id | _ => false end) (o_w i))
